@@ -70,40 +70,41 @@ Fixpoint h3_wire_loop (fuel : nat) (strict : bool) (rem : option N) (trl : bool)
   match fuel with
   | O => ([], W3 H3Pending)
   | S f =>
-    match s with
-    | [] => ([], W3 (h3_end_boundary strict rem e))
-    | _ =>
-      match vi_read s with
+    match vi_read s with
+    | None =>        (* quicvarint.Read hit the end of the stream: before the first byte of a
+                        frame (between two frames) or inside the frame type *)
+        ([], W3 (match s with
+                 | [] => h3_end_boundary strict rem e
+                 | _ => h3_end_inside strict e
+                 end))
+    | Some (t, s1) =>
+      match vi_read s1 with
       | None => ([], W3 (h3_end_inside strict e))
-      | Some (t, s1) =>
-        match vi_read s1 with
-        | None => ([], W3 (h3_end_inside strict e))
-        | Some (l, s2) =>
-          let p := firstn (N.to_nat l) s2 in
-          let got := lenN p in
-          let s3 := skipn (N.to_nat l) s2 in
-          if t =? h3t_data then
-            if trl then ([], W3RefusedStream)
-            else if l =? 0 then h3_wire_loop f strict rem trl s3 e
-            else match rem with
-                 | None =>
-                     if got <? l then (p, W3 (h3_end_inside strict e))
-                     else add_data p (h3_wire_loop f strict None trl s3 e)
-                 | Some m =>
-                     if m <? l then
-                       if m <=? got then (firstn (N.to_nat m) p, W3 H3TooMuch)
-                       else (p, W3 (h3_end_inside strict e))
-                     else if got <? l then (p, W3 (h3_end_inside strict e))
-                     else add_data p (h3_wire_loop f strict (Some (m - l)) trl s3 e)
-                 end
-          else if t =? h3t_headers then
-            if trl then ([], W3RefusedStream)
-            else if got <? l then ([], W3 (h3_end_inside strict e))
-            else h3_wire_loop f strict rem true s3 e
-          else if (t =? h3t_settings) || h3t_reserved t then ([], W3RefusedConn)
-          else if got <? l then ([], W3 (h3_end_inside strict e))     (* io.CopyN runs short *)
-          else h3_wire_loop f strict rem trl s3 e
-        end
+      | Some (l, s2) =>
+        let p := firstn (N.to_nat l) s2 in
+        let got := lenN p in
+        let s3 := skipn (N.to_nat l) s2 in
+        if t =? h3t_data then
+          if trl then ([], W3RefusedStream)
+          else if l =? 0 then h3_wire_loop f strict rem trl s3 e
+          else match rem with
+               | None =>
+                   if got <? l then (p, W3 (h3_end_inside strict e))
+                   else add_data p (h3_wire_loop f strict None trl s3 e)
+               | Some m =>
+                   if m <? l then
+                     if m <=? got then (firstn (N.to_nat m) p, W3 H3TooMuch)
+                     else (p, W3 (h3_end_inside strict e))
+                   else if got <? l then (p, W3 (h3_end_inside strict e))
+                   else add_data p (h3_wire_loop f strict (Some (m - l)) trl s3 e)
+               end
+        else if t =? h3t_headers then
+          if trl then ([], W3RefusedStream)
+          else if got <? l then ([], W3 (h3_end_inside strict e))
+          else h3_wire_loop f strict rem true s3 e
+        else if (t =? h3t_settings) || h3t_reserved t then ([], W3RefusedConn)
+        else if got <? l then ([], W3 (h3_end_inside strict e))     (* io.CopyN runs short *)
+        else h3_wire_loop f strict rem trl s3 e
       end
     end
   end.
